@@ -51,7 +51,9 @@ pub fn trace_case(ctx: &mut Ctx, samples: &[Val], o: &TOpts, label: &str, perms:
         if c != base {
             let both_ok = matches!((&r, &rp), (Out::Ok(_), Out::Ok(_)));
             if both_ok { fails.push(("order_changes_schema", format!("order {:?} gives a different schema: {} vs {}", p, c, base))); }
-            else if !o.to_string || perms.len() <= 2 && samples.len() == 2 && !label.starts_with("nested") {   // with allow_to_string the success of a whole collection may depend on its order (the property's own caveat); two samples of a nested shape contribute several leaf values to one position, so their swap reorders a longer collection fails.push(("order_changes_success", format!("order {:?}: {} vs {} (allow_to_string = {})", p, rp.class(), r.class(), o.to_string))); }
+            // with allow_to_string the success of a whole collection may depend on its order (the property's own caveat); two samples of a
+            // nested shape contribute several leaf values to one position, so their swap reorders a longer collection
+            else if !o.to_string || perms.len() <= 2 && samples.len() == 2 && !label.starts_with("nested") { fails.push(("order_changes_success", format!("order {:?}: {} vs {} (allow_to_string = {})", p, rp.class(), r.class(), o.to_string))); }
         }
     }
     // repetition changes nothing
